@@ -166,6 +166,28 @@ def MFADef.valid (d : MFADef) : Bool :=
    d.stocks.all (fun s => s.letters.all d.dimLetters.contains) &&
    d.params.all (fun p => p.letters.all d.dimLetters.contains))
 
+def StockClass.pyName : StockClass → String
+  | .flowDriven => "SimpleFlowDrivenStock"
+  | .inflowDriven => "InflowDrivenDSM"
+  | .stockDriven => "StockDrivenDSM"
+
+def showLetters (ls : List String) : String := if ls.isEmpty then "()" else "+".intercalate ls
+
+/-- `MFADefinition.to_dfs()`: one table per non-empty kind of definition (name, columns, one row per
+definition with its field values in field order) -/
+def defTables (dims : List Dim) (d : MFADef) : List (String × List String × List (List String)) :=
+  let all : List (String × List String × List (List String)) :=
+    [("dimensions", ["name", "letter", "dtype"], dims.map fun x =>
+        [x.name, x.letter.toString, match x.dtype with | some .int => "int" | some .str => "str" | none => "str"]),
+     ("processes", ["name"], d.processes.map fun p => [p]),
+     ("flows", ["dim_letters", "from_process_name", "to_process_name", "name_override"], d.flows.map fun f =>
+        [showLetters f.letters, f.fromName, f.toName, f.nameOverride.getD "None"]),
+     ("stocks", ["dim_letters", "name", "process_name", "time_letter", "subclass", "lifetime_model_class", "solver"],
+        d.stocks.map fun s => [showLetters s.letters, s.name, s.process.getD "None", s.timeLetter, s.cls.pyName,
+                               s.lifetime.getD "None", s.solver]),
+     ("parameters", ["dim_letters", "name"], d.params.map fun p => [showLetters p.letters, p.name])]
+  all.filter fun t => !t.2.2.isEmpty
+
 structure SystemM where
   processes : List (String × ProcessM)
   flows : List (String × FlowM)
